@@ -755,7 +755,13 @@ class Ref:
         vals = []
         if (ctx.nt_as_dict if ctx.nt_engine_field is None else ctx.nt_engine_field):
             for f in fields:
-                vals.append(self._at(f["t"], d, f["n"], ctx))
+                try:
+                    vals.append(self._at(f["t"], d, f["n"], ctx))
+                except RefError as e:
+                    # the same helper shape as the list form: an IndexError of a NESTED conversion ends the reading (F24)
+                    if "F24" in self.quirks and has_defaults and e.index_error:
+                        break
+                    raise
             return self._call(cls, *vals)
         for i, f in enumerate(fields):
             c = self._const(f["t"])
